@@ -11,8 +11,8 @@ RULE = ('histories: corpus + seeded random action lists (3-6 users, 1-3 channels
         'to the real irclib.Irc.feedMsg and to the extracted bot model; (irc.nick, irc.prefix, state.channels, state.nicksToHostmasks) '
         'is dumped after EVERY message and diffed model vs implementation with exact spellings; after every action the implementation '
         'dump is compared under IRC case folding with the reference server\'s view (direct oracle).  A failure records every differing aspect (nick, channel list, users, ops, halfops, voices, bans, topic, modes, created, hostmask); '
-        'it is attributed to a recorded finding only when EVERY differing aspect is that finding\'s own (F10: hostmask entry of a case-renamed nick missing; '
-        'F10b: hostmask replaced by the bare nick after a userhost-in-names NAMES; F10c: mode parameter differing exactly by int() coercion); the run continues past such steps.   A second, hostile stream feeds raw '
+        'it is attributed to the recorded finding F10c only when EVERY differing aspect is a mode parameter differing exactly by int() coercion '
+        '(F10 and F10b are repaired; their witnesses head the corpus); the run continues past such steps.   A second, hostile stream feeds raw '
         'messages of the anchored commands with wrong arity / unknown channels / odd prefixes (correspondence + self-leave oracle). '
         'non-trivial = distinct history with at least one emitted message')
 TRUSTED = ['Irc.feedMsg is driven with ircmsgs.IrcMsg(prefix=, command=, args=) objects, a stub driver and no callbacks loaded; '
@@ -28,7 +28,7 @@ LEVEL_TEXT = ('Coq theorems over an executable Gallina model of the state tracki
               '_nickSetters, handler inventory, hostmask regex shape) and by a differential run after every message against the real Irc object.')
 LEVEL_NOTE = ('Trusted: Coq kernel, gen_tables.py, extraction + OCaml driver, the Python harness, the reference server as specification. '
               'The full trace-level simulation theorem is NOT proved; what is proved is listed in Props.v (per-handler effect theorems over all states, '
-              'self-leave, fold-respecting lookups, separateModes against a declarative parse, refutation witnesses for the three findings).')
+              'self-leave, fold-respecting lookups, separateModes against a declarative parse, the refutation witness for finding F10c).')
 TECHNIQUE = 'Coq proof (induction over lists/states) + regenerated tables + extracted reference server and bot model run beside the real Irc object'
 EXPLANATION = 'C10: bot model coq/C10/Bot.v, reference server coq/C10/Spec.v; theorems in coq/C10/Props.v'
 
@@ -199,7 +199,8 @@ def variant(rng, s):
 
 
 def gen_history(rng, trig):
-    """trig: set of finding triggers allowed in this history ('casenick', 'uhnames', 'intarg')"""
+    """trig: set of finding triggers allowed in this history ('intarg': non-canonical int mode parameters, finding F10c).
+    Case-only nick changes and userhost-in-names NAMES (former findings F10/F10b, repaired) are ordinary events."""
     base = ['alice', 'Bob', 'carol[a]', 'dave^', 'Eve|x', 'f00'][:rng.randint(3, 6)]
     chans = ['#a', '#Chan[1]', '&loc'][:rng.randint(1, 3)]
     fresh = ['zed', 'Yan{k}', 'xi~', 'w_w', 'Vic\\t']
@@ -226,12 +227,10 @@ def gen_history(rng, trig):
         elif r < 0.54:
             i = rng.randrange(len(nicks))
             old = nicks[i]
-            if 'casenick' in trig and rng.random() < 0.4:
+            if rng.random() < 0.25:
                 new = variant(rng, old)
             else:
                 new = rng.choice(fresh + base + ['test', 'Test2'])
-                if _st['ircutils'].strEqual(old, new) and old != new and 'casenick' not in trig:
-                    continue
             acts.append(['nick', sp(old), new])
             if not any(_st['ircutils'].strEqual(new, x) for x in nicks if x != old):
                 nicks[i] = new       # tracked approximately; the server model decides validity
@@ -257,7 +256,7 @@ def gen_history(rng, trig):
         elif r < 0.85:
             acts.append(['chghost', nick(), rng.choice(['newu', '~y']), rng.choice(['new.host', 'Cloak/X'])])
         elif r < 0.91:
-            acts.append(['names', chan(), rng.random() < 0.5, ('uhnames' in trig) and rng.random() < 0.5])
+            acts.append(['names', chan(), rng.random() < 0.5, rng.random() < 0.5])
         elif r < 0.96:
             acts.append(['who', chan()])
         elif r < 0.975:
@@ -265,7 +264,7 @@ def gen_history(rng, trig):
             acts.append(['join', 'test', [rng.choice(chans)]])
         else:
             acts.append(['connect', rng.choice(fresh), 'u3', 'h3'])
-    return {'op': 'hist', 'mp': rng.random() < 0.6, 'uh': ('uhnames' in trig) and rng.random() < 0.5, 'acts': acts}
+    return {'op': 'hist', 'mp': rng.random() < 0.6, 'uh': rng.random() < 0.5, 'acts': acts}
 
 
 # ---------------------------------------------------------------- finding classes
@@ -277,13 +276,8 @@ def _int_noncanon(a):
 
 
 def triggers(inp):
-    lo = _env()['ircutils'].toLower
     t = set()
     for a in inp.get('acts', []):
-        if a[0] == 'nick' and lo(a[1]) == lo(a[2]):
-            t.add('casenick')
-        if a[0] == 'names' and a[3]:
-            t.add('uhnames')
         if a[0] == 'mode' and any(_int_noncanon(arg) for _, f, arg in a[3]):
             t.add('intarg')
     return t
@@ -291,18 +285,9 @@ def triggers(inp):
 
 def excuse(d, acts):
     """which recorded finding (if any) explains ONE differing aspect, given the history so far.  Deliberately narrow:
-    F10  = the hostmask of a nick that went through a case-only NICK is forgotten (bot has no entry);
-    F10b = the hostmask of a nick is replaced by the bare nick after a userhost-in-names NAMES reply;
     F10c = a mode parameter differs from the server's exactly by int() coercion.
-    Anything else (membership, ops/halfops/voices, bans, topic, channel list, nick, other hostmask errors) is never excused."""
-    lo = _st['ircutils'].toLower
-    if d['aspect'] == 'hostmask':
-        if d['bot'] is None and any(a[0] == 'nick' and lo(a[1]) == lo(a[2]) and lo(a[2]) == lo(d['key']) for a in acts):
-            return 'casenick'
-        if isinstance(d['bot'], str) and '!' not in d['bot'] and lo(d['bot']) == lo(d['key']) \
-                and any(a[0] == 'names' and a[3] for a in acts):
-            return 'uhnames'
-        return None
+    Anything else (hostmasks, membership, ops/halfops/voices, bans, topic, channel list, nick) is never excused.
+    (F10 and F10b are repaired: nothing is attributed to them any more; their witnesses head the corpus.)"""
     if d['aspect'] == 'modes' and d['bot'] and d['server'] and d['bot'][0] is not None and d['server'][0] is not None:
         sv = d['server'][0]
         if _int_noncanon(sv) and str(int(sv)) == d['bot'][0] \
@@ -334,7 +319,7 @@ def _class(which):
     return pred
 
 
-CLASSES = {'case_only_nick': _class('casenick'), 'uhnames_names': _class('uhnames'), 'noncanonical_int_arg': _class('intarg')}
+CLASSES = {'noncanonical_int_arg': _class('intarg')}
 
 
 # ---------------------------------------------------------------- running one history
@@ -530,10 +515,10 @@ def buildable(inp):
 
 # ---------------------------------------------------------------- corpus
 CORPUS = [
-    # F10: a NICK change differing only in case erases the hostmask
+    # old witness of finding F10 (repaired): a NICK change differing only in case erased the hostmask
     {'op': 'hist', 'mp': True, 'uh': False, 'acts': [['connect', 'Foo', 'u', 'h'], ['join', 'test', ['#a']], ['join', 'Foo', ['#a']],
                                                     ['nick', 'Foo', 'foo']]},
-    # NAMES with userhost-in-names overwrites hostmasks with bare names
+    # old witness of finding F10b (repaired): NAMES with userhost-in-names overwrote hostmasks with bare names
     {'op': 'hist', 'mp': True, 'uh': False, 'acts': [['connect', 'Foo', 'u', 'h'], ['join', 'test', ['#a']], ['join', 'Foo', ['#a']],
                                                     ['names', '#a', True, True]]},
     # int() coercion of mode parameters
@@ -559,7 +544,7 @@ def run(ctx):
     check_histories(ctx, CORPUS)
     hs = []
     for i in range(ctx.n(260)):
-        trig = set() if i % 4 else set(rng.sample(['casenick', 'uhnames', 'intarg'], rng.randint(1, 2)))
+        trig = set() if i % 4 else {'intarg'}
         hs.append(gen_history(rng, trig))
     check_histories(ctx, hs)
     raws = CORPUS_RAW + [r for r in (gen_raw(rng) for _ in range(ctx.n(1200))) if buildable(r)]
